@@ -42,7 +42,10 @@ func checkC19(e *Engine, r *Report) {
 		"R1+R2 weight clamp: Affinity.Validate clamps the weight to ±UserWeightCutoff (1000) on every success path; parseFull validates after applying the anti-affinity sign and appends only validated affinities",
 		"selection order (balloons): effective annotation first (unknown name is an error), then the balloon types in configured slice order with match expressions before namespaces, then the default type; the implicit reserved type is prepended and matches kube-system plus ReservedPoolNamespaces",
 	}
-	r.NotDecided = []string{"glob semantics (filepath.Match)", "joint-key value composition (splitKeys/KeyValue)"}
+	r.Rules = append(r.Rules,
+		"joint keys: KeyValue joins the ResolveRef of every sub-key, in order, with the separator splitKeys returned; splitKeys follows the documented format table on every path (sub-string abstract domain); ResolveRef: a map miss is not found, a hit is, the walk continues exactly while a part of the key remains, the final string is the value",
+		"built-in balloon types are added to the configured list exactly when it has none of that name (reserved at the front, default at the end)")
+	r.NotDecided = []string{"glob semantics (filepath.Match)", "what EvalKey of the cache objects returns for a key"}
 	r.Assumptions = []string{"negation duality accepts the two idioms found in the tree (shared clause with a final conditional negation; separate clauses X / !X); a third, behaviour-preserving idiom would be reported as undecided"}
 
 	exprT := e.Named(pkgExpr, "Expression")
